@@ -75,4 +75,38 @@ mod native {
         std::env::set_current_dir("/").unwrap();
         let _ = std::fs::remove_dir_all(&dir);
     }
+
+    // Metainfo::file_list (filter_map chains) and find_files are NOT under contract.  BOUNDED stand-in for C17's "the ordered file
+    // list equals what the document says": every multi-file document with 1..=3 (thorough: 4) entries whose lengths range over
+    // {0, 1, 7, 300} and whose paths are distinct is parsed by the REAL from_bencode; files must come back in order with their
+    // lengths and paths.
+    #[test]
+    fn native_c17_file_list_small_documents() {
+        let deep = std::env::var("RDEST_VERIF_TIER").map(|t| t == "thorough").unwrap_or(false);
+        let lens = [0u64, 1, 7, 300];
+        let names = ["a", "bb", "c.txt", "dir_d"];
+        let mut docs = 0;
+        for n in 1..=(if deep { 4usize } else { 3 }) {
+            for code in 0..lens.len().pow(n as u32) {
+                let ls: Vec<u64> = (0..n).map(|i| lens[code / lens.len().pow(i as u32) % lens.len()]).collect();
+                let total: u64 = ls.iter().sum();
+                let pl = 4u64;
+                let pieces = ((total + pl - 1) / pl) as usize;
+                let mut d = b"d8:announce3:url4:infod5:filesl".to_vec();
+                for (i, l) in ls.iter().enumerate() {
+                    d.extend(format!("d6:lengthi{}e4:path{}:{}e", l, names[i].len(), names[i]).into_bytes());
+                }
+                d.extend(format!("e4:name1:n12:piece lengthi{}e6:pieces{}:", pl, 20 * pieces).into_bytes());
+                d.extend(std::iter::repeat(9u8).take(20 * pieces));
+                d.extend_from_slice(b"ee");
+                let m = Metainfo::from_bencode(&d).unwrap_or_else(|e| panic!("document with file lengths {:?} rejected: {:?}", ls, e));
+                let got: Vec<(String, u64)> = m.files.iter().map(|f| (f.path.clone(), f.length)).collect();
+                let want: Vec<(String, u64)> = ls.iter().enumerate().map(|(i, l)| (names[i].to_string(), *l)).collect();
+                assert_eq!(got, want, "file list of the document with lengths {:?}", ls);
+                assert_eq!(m.total_length(), total);
+                docs += 1;
+            }
+        }
+        assert!(docs >= 84);
+    }
 }
